@@ -5,9 +5,9 @@ import common as C
 PROPERTIES = ["C02"]
 MANIFEST = {
     "C02": {
-        "technique": "Lean 4 proof (refinement of a bucket-chain + order-list model of HashMap/HashSet/PoolMap to an insertion-ordered association list, for every capacity, hash function and op list; invariant by induction over op lists) + differential correspondence model vs the real headers",
-        "text": "Theorems over all operation histories, all capacities >= 1 and all hash functions of the Lean model (results, iteration, equality and returned iterators equal those of the association-list specification; chains partition the live items); the model is tied to the current HashMap.hpp/HashSet.hpp/PoolMap.hpp on every run by executing identical op lines on both (exhaustive small scope + random histories, capacities 0,1,2,3,8,500, five hash functions incl. constant, ASan/UBSan, white-box chain walk) and by an independent Python association-list reference.",
-        "note": "Trusted: Lean kernel + the three standard axioms; hand translation of the headers into the model (validated by the correspondence run, not proved). Modelled rather than verified: bucket chains as per-bucket id lists (push-front, unlink through the stored cell index) instead of nextCell/cell pointers; the doubly linked order list + end sentinel as a list of item ids (swap's re-anchoring of the sentinel is therefore only tested: forward/backward traversal after every op); one node heap per table. Keys/values are naturals with =; hash/== of the key type are consistent. Self-assignment/self-append (a = a) and element life-cycle are outside (property C04).",
+        "technique": "Lean 4 proof: pointer-level model of HashMap/HashSet/PoolMap (cell back-pointers, nextCell chains, prev/next list with owned end sentinel, free list, 4-item blocks) simulated by a chain-list model, which refines an insertion-ordered association list, for every capacity, hash function and op list (induction over op lists) + differential correspondence of both models vs the real headers",
+        "text": "Theorems over all operation histories, all capacities >= 1 and all hash functions (hence every collision pattern) of the Lean models: results, iteration, equality and returned iterators equal those of the association-list specification; chains partition the live items by hash % capacity; cell back-pointers designate the referring cell; an existing key keeps its position (HashMap updates the value, HashSet/PoolMap untouched); String hash reads stay in bounds. The models are tied to the current HashMap.hpp/HashSet.hpp/PoolMap.hpp on every run by executing identical op lines on the real code and on both models in lock-step (exhaustive small scope + random histories, capacities 0,1,2,3,8,500, five hash functions incl. constant, ASan/UBSan, forward/backward traversal, white-box comparison of every bucket chain, the free list and the order list as canonical item ids) and by an independent Python association-list reference.",
+        "note": "Trusted: Lean kernel + the three standard axioms; hand translation of the headers into the pointer-level model PtrModel.lean (validated by the correspondence run, not proved). Abstractions of that model: one node heap per table (swap exchanges heaps as the code exchanges `blocks`), item addresses are block*4+slot numbers, loops carry a fuel argument (proved sufficient: no reachable fault), keys/values are naturals with = (hash/== of the key type consistent), allocation never fails, destructors/constructors of elements are no-ops. Self-assignment/self-append (a = a) and element life-cycle are outside (property C04). hash(const String&) value is modelled for 64-bit usize and checked by the correspondence only; its in-bounds theorem is about the three indices.",
         "design_ref": "DESIGN.md 3/C02",
     }
 }
